@@ -1,6 +1,6 @@
 """Contracts for pydbml/parser/blueprints.py and PyDBMLParser.locate_table (C01 field copying,
 C05 identity links, C06 not-found errors, C11 fresh copies, C13 note normalisation composition)."""
-from pyvc.verify import contract, loc, loc_list
+from pyvc.verify import contract, loc, loc_list, loc_each
 from pyvc.speclib import fresh, old, abstract
 from pydbml.classes import (Column, Enum, EnumItem, Expression, Index, Note, Project, Reference, StickyNote,
                             Table, TableGroup)
@@ -403,3 +403,169 @@ class enum_build:
                         and result.items[j].note.text == (normalised(self.items[j].note.text)
                                                           if self.items[j].note is not None else '')
                         for j in range(len(self.items))))
+
+
+# ------------------------------------------------------------------------------------------ TableBlueprint
+from contracts.table import cols_inv, idx_inv, tbl_inv      # noqa: E402
+
+
+def col_built(bp, c, t):
+    """column `c` of table `t` is what ColumnBlueprint `bp` declares (C01) and belongs to `t` (C05)"""
+    return (fresh(c) and c.table is t and c.name == bp.name and c.unique is bp.unique and c.not_null is bp.not_null
+            and c.pk is bp.pk and c.autoinc is bp.autoinc and c.comment == bp.comment and c.type is bp.type
+            and c.default is bp.default)
+
+
+def subject_ok(s, x, t):
+    """index subject: an expression text becomes a new Expression, a column name the table's own column of
+    that name"""
+    return ((isinstance(x, Expression) and fresh(x) and x.text == s.text) if isinstance(s, ExpressionBlueprint)
+            else any(t.columns[q] is x and x.name == s for q in range(len(t.columns))))
+
+
+def index_built(bp, ix, t):
+    return (fresh(ix) and ix.table is t and ix.name == (bp.name if bp.name else None) and ix.unique is bp.unique
+            and ix.type == bp.type and ix.pk is bp.pk and ix.comment == bp.comment
+            and len(ix.subjects) == len(bp.subject_names)
+            and all(subject_ok(bp.subject_names[m], ix.subjects[m], t) for m in range(len(bp.subject_names))))
+
+
+def header_built(bp, t):
+    return (t.name == bp.name and t.schema == bp.schema and t.alias == (bp.alias if bp.alias else None)
+            and t.header_color == bp.header_color and t.comment == bp.comment and t.database is None)
+
+
+@contract('pydbml.parser.blueprints:TableBlueprint.build')
+class table_build:
+    """C01: the Table carries the declared header, one Column per declared column and one Index per declared
+    index, in order, each with the declared settings; C05: columns and indexes point back to the table and index
+    subjects are the table's own Column objects; C06: an index over an undeclared column is refused
+    (ColumnNotFoundError).  Three loops are verified by invariant (columns, indexes, subjects of one index)."""
+    fresh_result = True
+    properties = ('C01', 'C05', 'C06')
+    tier = 'thorough'              # the slowest proof (about 5 min): thorough tier and ledger only
+    min_timeout_ms = 30000
+    params = {'self': 'TableBlueprint'}
+    ret = 'Table'
+    allowed = ('ColumnNotFoundError',)
+
+    def requires_columns_ready(self):
+        return self.columns is None or all(isinstance(c.type, str) and (c.parser is None or c.parser.database is not None)
+                                           for c in self.columns)
+
+    def requires_distinct_columns(self):
+        return self.columns is None or all(all(a == b or x is not y for b, y in enumerate(self.columns))
+                                           for a, x in enumerate(self.columns))
+
+    def modifies(self):
+        return ([loc_each(self.columns, 'default'), loc_each(self.columns, 'type')] if self.columns is not None else [])
+
+    # -- columns
+    def loop0_modifies(self, result, columns):
+        return [loc_list(result.columns), loc_each(columns, 'default'), loc_each(columns, 'type')]
+
+    def loop0_invariant(self, result, columns, i):
+        return (fresh(result) and fresh(result.columns) and fresh(result.indexes) and header_built(self, result)
+                and len(result.columns) == i and len(result.indexes) == 0
+                and all(col_built(columns[j], result.columns[j], result) for j in range(i))
+                # the columns not yet built are as the precondition found them
+                and all(j < i or (isinstance(columns[j].type, str)
+                                  and (columns[j].parser is None or columns[j].parser.database is not None))
+                        for j in range(len(columns))))
+
+    # -- indexes
+    def loop1_modifies(self, result, indexes):
+        return [loc_list(result.indexes)]
+
+    def loop1_invariant(self, result, columns, indexes, i):
+        return (fresh(result) and fresh(result.columns) and fresh(result.indexes) and header_built(self, result)
+                and len(result.columns) == len(columns)
+                and all(col_built(columns[j], result.columns[j], result) for j in range(len(columns)))
+                and len(result.indexes) == i
+                and all(index_built(indexes[j], result.indexes[j], result) for j in range(i)))
+
+    # -- subjects of one index
+    def loop2_modifies(self, new_subjects):
+        return [loc_list(new_subjects)]
+
+    def loop2_invariant(self, result, index_bp, new_subjects, i):
+        return (fresh(new_subjects) and len(new_subjects) == i
+                and all(subject_ok(index_bp.subject_names[m], new_subjects[m], result) for m in range(i)))
+
+    def ensures_header(self, result):
+        return header_built(self, result)
+
+    def ensures_columns(self, result):
+        return (len(result.columns) == (len(self.columns) if self.columns else 0)
+                and all(col_built(self.columns[j], result.columns[j], result) for j in range(len(result.columns))))
+
+    def ensures_indexes(self, result):
+        return (len(result.indexes) == (len(self.indexes) if self.indexes else 0)
+                and all(index_built(self.indexes[j], result.indexes[j], result) for j in range(len(result.indexes))))
+
+    def ensures_note(self, result):
+        return result.note.parent is result and \
+            result.note.text == (normalised(self.note.text) if self.note is not None else '')
+
+    def ensures_properties(self, result):
+        return (result.properties is self.properties) if self.properties else \
+            (fresh(result.properties) and len(result.properties) == 0)
+
+
+# ------------------------------------------------------------------------------------------ inline references of a table
+from pyvc.verify import loc_cls      # noqa: E402
+from pydbml.parser.blueprints import ReferenceBlueprint      # noqa: E402
+
+
+def marked(tbp, rb):
+    """the inline reference blueprint `rb` names table blueprint `tbp` as its first side and one of its columns as
+    the first column"""
+    return (rb.schema1 == tbp.schema and rb.table1 == tbp.name
+            and any(rb.col1 == c.name for c in tbp.columns))
+
+
+def collected(xs, rb):
+    return any(xs[k] is rb for k in range(len(xs)))
+
+
+def col_refs_collected(xs, c):
+    return c.ref_blueprints is None or all(collected(xs, c.ref_blueprints[m]) for m in range(len(c.ref_blueprints)))
+
+
+@contract('pydbml.parser.blueprints:TableBlueprint.get_reference_blueprints')
+class table_inline_refs:
+    """C01: every inline reference declared on a column of the table is returned (the object itself), and every
+    returned blueprint has the table (schema, name) and one of its columns as its first side."""
+    properties = ('C01', 'C05')
+    params = {'self': 'TableBlueprint'}
+    ret = 'List[ReferenceBlueprint]'
+
+    def requires_columns(self):
+        return self.columns is not None
+
+    def modifies(self):
+        return [loc_cls(ReferenceBlueprint, 'schema1'), loc_cls(ReferenceBlueprint, 'table1'),
+                loc_cls(ReferenceBlueprint, 'col1')]
+
+    def loop0_modifies(self, result):
+        return [loc_list(result), loc_cls(ReferenceBlueprint, 'schema1'), loc_cls(ReferenceBlueprint, 'table1'),
+                loc_cls(ReferenceBlueprint, 'col1')]
+
+    def loop0_invariant(self, result, i):
+        return (fresh(result) and all(marked(self, result[k]) for k in range(len(result)))
+                and all(col_refs_collected(result, self.columns[j]) for j in range(i)))
+
+    def loop1_modifies(self, result):
+        return [loc_list(result), loc_cls(ReferenceBlueprint, 'schema1'), loc_cls(ReferenceBlueprint, 'table1'),
+                loc_cls(ReferenceBlueprint, 'col1')]
+
+    def loop1_invariant(self, result, col, i0, i):
+        return (fresh(result) and all(marked(self, result[k]) for k in range(len(result)))
+                and all(col_refs_collected(result, self.columns[j]) for j in range(i0))
+                and all(collected(result, col.ref_blueprints[m]) for m in range(i)))
+
+    def ensures_marked(self, result):
+        return fresh(result) and all(marked(self, result[k]) for k in range(len(result)))
+
+    def ensures_complete(self, result):
+        return all(col_refs_collected(result, self.columns[j]) for j in range(len(self.columns)))
